@@ -22,6 +22,9 @@ class CallMixin:
             self.call_ord[id(x)] = counts.get(k, 0)
             counts[k] = counts.get(k, 0) + 1
         self.callee_keys = set(counts)
+        comps = [x for x in ast.walk(fn) if isinstance(x, (ast.ListComp, ast.SetComp, ast.DictComp, ast.GeneratorExp))]
+        comps.sort(key=lambda x: (x.lineno, x.col_offset))
+        self.comp_ord = {id(x): i for i, x in enumerate(comps)}
         loops = [x for x in ast.walk(fn) if isinstance(x, (ast.For, ast.While, ast.AsyncFor))]
         loops.sort(key=lambda x: (x.lineno, x.col_offset))
         self.loop_ord = {id(x): i for i, x in enumerate(loops)}
@@ -468,6 +471,9 @@ class CallMixin:
                 if isinstance(x, T) and x.sort == s:
                     r = self.opaque("ext", s)
                     st.pc.append(f"(= {r.s} (seq.++ {recv.s} {x.s}))")
+                    st.pc.append(f"(= (seq.len {r.s}) (+ (seq.len {recv.s}) (seq.len {x.s})))")
+                    st.pc.append(f"(forall ((|q_a| Int)) (! (=> (and (>= |q_a| 0) (< |q_a| (seq.len {recv.s}))) (= (seq.nth {r.s} |q_a|) (seq.nth {recv.s} |q_a|))) :pattern ((seq.nth {r.s} |q_a|))))")
+                    st.pc.append(f"(forall ((|q_a| Int)) (! (=> (and (>= |q_a| (seq.len {recv.s})) (< |q_a| (seq.len {r.s}))) (= (seq.nth {r.s} |q_a|) (seq.nth {x.s} (- |q_a| (seq.len {recv.s}))))) :pattern ((seq.nth {r.s} |q_a|))))")
                     st.pc.append(f"(forall ((|q_e| {sort_smt(s[1])})) (! (= (seq.contains {r.s} (seq.unit |q_e|)) (or (seq.contains {recv.s} (seq.unit |q_e|)) (seq.contains {x.s} (seq.unit |q_e|)))) :pattern ((seq.contains {r.s} (seq.unit |q_e|)))))")
                     if self.store_back(f.value, r, st):
                         return T(NONE, "none")
